@@ -60,3 +60,80 @@ Print Assumptions C13_write_frame.
 Print Assumptions C13_unmount_clean_no_write.
 Print Assumptions C13_read_leaves_world.
 Print Assumptions C13_seek_leaves_world.
+
+(* ================================================================================================================
+   WHOLE IMAGES (Proofs/VolFrameProofs.v section 5): a mounted read-only session hands back the image it mounted.
+   The session machine [ro_run] is built from the model functions only: VolDir.root_lookup (path resolution / exists / metadata:
+   a function of the image, it returns no image), VolSession.sess_open (a File on an existing entry), VolStatus.sesss_step with
+   update_accessed_date = false (the mounted call on a handle) restricted to read / seek, VolStatus.sesss_flush (flush / drop of a
+   handle), between VolStatus.vol_mount_status and VolStatus.vol_unmount.  State: image, FS-info latch, handles, status latch. *)
+
+From Coq Require Import FMapPositive.
+From FatVerif Require Import Spec.Abs Spec.Regions Model.Str Model.Slot Model.Time Model.FileM Model.Name Model.ShortName Model.DirSlots Model.Flags
+  Model.VolDir Model.VolChainDir Model.VolFile Model.FlushM Model.VolSession Model.VolSession2 Model.VolRemove Model.VolStatus
+  Spec.ByteFile Proofs.TableProofs Proofs.FileProofs Proofs.DirSlotsProofs Proofs.VolDirProofs Proofs.VolDirFormat
+  Proofs.VolFileProofs Proofs.VolSessionProofs Proofs.VolSession2Proofs Proofs.VolRemoveProofs Proofs.VolStatusProofs
+  Proofs.VolChainDirProofs Proofs.VolSessionExamples Proofs.VolSession2Examples Proofs.VolRemoveExamples
+  Proofs.VolStatusExamples Proofs.VolFrameProofs Proofs.VolFrameExamples.
+From FatVerif Require Spec.Wf Model.Lfn Proofs.TimeProofs.
+Import ListNotations.
+
+(* File::read / File::seek: the world (FAT store, latch, data) AND the handle's DirEntryEditor are returned as they were - any store,
+   any arguments, any outcome, no premise *)
+Theorem C13_read_seek_leave_world_and_editor :
+    forall (T : Type) (get : T -> N -> res fatv) (set : T -> N -> fatv -> res T) (cs total : N) 
+      (w : fworld T) (h : fhandle) (o : fop) (w' : fworld T) (h' : fhandle) (r : fresult),
+    file_step T get set cs total w h o = (w', h', r) -> read_only_op o = true -> w' = w /\ h_entry h' = h_entry h.
+Proof. exact file_step_ro_entry. Qed.
+
+(* one call of a read-only session: image, FS-info latch, status latch equal (=); every handle still clean *)
+Theorem C13_vol_ro_step_untouched :
+    forall (g : geom) (upper : N -> list N) (oem : N -> N) (st : rostate) (c : ro_call),
+    ro_ok c = true ->
+    Forall (fun x : shandle => s2_dirty x = false) (ro_hs st) ->
+    let st' := fst (ro_step g upper oem st c) in
+    ro_im st' = ro_im st /\
+    ro_fi st' = ro_fi st /\ ro_s st' = ro_s st /\ Forall (fun x : shandle => s2_dirty x = false) (ro_hs st').
+Proof. exact ro_step_untouched. Qed.
+
+Theorem C13_vol_ro_run_untouched :
+    forall (g : geom) (upper : N -> list N) (oem : N -> N) (cs : list ro_call) (st : rostate),
+    forallb ro_ok cs = true ->
+    Forall (fun x : shandle => s2_dirty x = false) (ro_hs st) ->
+    let st' := fst (ro_run g upper oem st cs) in
+    ro_im st' = ro_im st /\ ro_fi st' = ro_fi st /\ ro_s st' = ro_s st.
+Proof. exact ro_run_untouched. Qed.
+
+(* unmount of a volume on which nothing was marked: no write, for every mount-time status byte (dirty or not) and any geometry *)
+Theorem C13_vol_unmount_after_mount_is_identity :
+    forall (g : geom) (im : image), vol_unmount g im (vol_mount_status g im) = (im, vol_mount_status g im).
+Proof. exact unmount_after_mount. Qed.
+
+(* THE READ-ONLY SESSION: mount ; lookups, opens, reads, seeks on any handles with any arguments and outcomes, drops, in any order ;
+   unmount => the image is the mounted image (Leibniz equal: not one write, not even of an equal byte), the latch is unchanged.
+   No premise on the image at all (any geometry, any content, clean or dirty) *)
+Theorem C13_vol_read_only_session_no_write :
+    forall (g : geom) (upper : N -> list N) (oem : N -> N) (im : image) (fi : fsinfo) (cs : list ro_call),
+    forallb ro_ok cs = true ->
+    fst (fst (ro_session g upper oem im fi cs)) = im /\ snd (fst (ro_session g upper oem im fi cs)) = fi.
+Proof. exact ro_session_no_write. Qed.
+
+(* non-vacuity on the 64-sector image with a.txt (515 bytes): the reads return the file, the image is untouched *)
+Example C13_vol_example_read_only_session :
+    forallb ro_ok exf_ro_calls = true /\
+    (let
+     '(im', fi', outs) := ro_session ex_g ex_U ex_O ex_rm_im ex_rm_fi exf_ro_calls in
+      im' = ex_rm_im /\
+      fi' = ex_rm_fi /\
+      (exists ev : Lfn.entry_view,
+         outs =
+         [OLookup (Ok ev); OLookup (Err ENotFound); OOpen true; OCall (RBytes (repeat 7 509 ++ [1; 2; 3]));
+          OCall (RPos 3); OCall (RBytes [7; 7; 7; 7; 7]); ONone; ONone; OOpen false])).
+Proof. exact exf_read_only_session. Qed.
+
+Print Assumptions C13_read_seek_leave_world_and_editor.
+Print Assumptions C13_vol_ro_step_untouched.
+Print Assumptions C13_vol_ro_run_untouched.
+Print Assumptions C13_vol_unmount_after_mount_is_identity.
+Print Assumptions C13_vol_read_only_session_no_write.
+Print Assumptions C13_vol_example_read_only_session.
